@@ -354,7 +354,13 @@ func fragFlagObligations(h *bounds.Helper, in ssa.Instruction, d *bounds.Disjunc
 						continue
 					}
 					q := lin.EQ(r, r0)
-					h.Oblige("the start flag is set on the first fragment only", d.Entails(q...), d.Describe(q[0])+" ; "+d.Describe(q[1]))
+					okS := d.Entails(q...)
+					if !okS && firstIterationOnly(fl, or.Block()) {
+						// guarded by a loop-carried flag that is true on the entry edge and false on every back edge: the
+						// block runs in the first iteration only, where the remaining amount is the initial one by definition
+						okS = true
+					}
+					h.Oblige("the start flag is set on the first fragment only", okS, d.Describe(q[0])+" ; "+d.Describe(q[1]))
 				}
 			}
 			for _, e := range fl.eOr {
@@ -412,3 +418,84 @@ func fragFlagObligations(h *bounds.Helper, in ssa.Instruction, d *bounds.Disjunc
 }
 
 func isConstVal(v ssa.Value) bool { _, ok := v.(*ssa.Const); return ok }
+
+// firstIterationOnly: block b of the loop is dominated by the true edge of a test of a boolean phi of the
+// loop head whose value is the constant true on the entry edge and false on every back edge
+// (`first := true; for ... { if first { ...; first = false } }`, also with the reset after the test): b runs
+// in the first iteration only.
+func firstIterationOnly(fl *fragLoop, b *ssa.BasicBlock) bool {
+	for _, in := range fl.head.Instrs {
+		ph, ok := in.(*ssa.Phi)
+		if !ok {
+			break
+		}
+		if bt, isB := ph.Type().Underlying().(*types.Basic); !isB || bt.Kind() != types.Bool {
+			continue
+		}
+		// the tests of the flag inside the loop
+		var tests []*ssa.BasicBlock
+		for _, blk := range fl.head.Parent().Blocks {
+			if !fl.body[blk] || len(blk.Instrs) == 0 {
+				continue
+			}
+			if iff, ok := blk.Instrs[len(blk.Instrs)-1].(*ssa.If); ok && iff.Cond == ssa.Value(ph) {
+				tests = append(tests, blk)
+			}
+		}
+		// known false at the end of block pr: on the false side of a test of the flag
+		falseAt := func(pr *ssa.BasicBlock, via *ssa.BasicBlock) bool {
+			for _, t := range tests {
+				f := t.Succs[1]
+				if pr == t && via == f {
+					return true
+				}
+				if len(f.Preds) == 1 && f.Dominates(pr) {
+					return true
+				}
+			}
+			return false
+		}
+		var isFalse func(v ssa.Value, from, to *ssa.BasicBlock, seen map[ssa.Value]bool) bool
+		isFalse = func(v ssa.Value, from, to *ssa.BasicBlock, seen map[ssa.Value]bool) bool {
+			if c, ok := core.ConstBool(v); ok {
+				return !c
+			}
+			if v == ssa.Value(ph) {
+				return falseAt(from, to)
+			}
+			if p2, ok := v.(*ssa.Phi); ok {
+				if seen[v] {
+					return true
+				}
+				seen[v] = true
+				for i, e := range p2.Edges {
+					if !isFalse(e, p2.Block().Preds[i], p2.Block(), seen) {
+						return false
+					}
+				}
+				return true
+			}
+			return false
+		}
+		good := true
+		for i, pr := range fl.head.Preds {
+			if fl.body[pr] {
+				if !isFalse(ph.Edges[i], pr, fl.head, map[ssa.Value]bool{}) {
+					good = false
+				}
+			} else if v, isC := core.ConstBool(ph.Edges[i]); !isC || !v {
+				good = false
+			}
+		}
+		if !good {
+			continue
+		}
+		for _, t := range tests {
+			ts := t.Succs[0]
+			if len(ts.Preds) == 1 && ts.Dominates(b) {
+				return true
+			}
+		}
+	}
+	return false
+}
